@@ -31,6 +31,7 @@ namespace awkward {
       .append(";").append("\n");
 
     vm_output_ = content_.get()->vm_output();
+    vm_data_from_stack_ = content_.get()->vm_from_stack();
     vm_error_.append(content_.get()->vm_error());
   }
 
